@@ -59,6 +59,17 @@ fn has_non_global_surrounding_splits(txs: &[Tx], idx: usize) -> bool {
 pub fn replace_global_security_splits(
     sorted_security_txs: &mut Vec<Tx>,
 ) -> Result<(), SError> {
+    replace_global_security_splits_for(sorted_security_txs, &[])
+}
+
+/// Same as `replace_global_security_splits`, but the global splits are also
+/// applied to `extra_affiliates`, which hold shares of the security without
+/// having any Tx of their own (eg. the default affiliate when an initial
+/// status was provided for the security).
+pub fn replace_global_security_splits_for(
+    sorted_security_txs: &mut Vec<Tx>,
+    extra_affiliates: &[Affiliate],
+) -> Result<(), SError> {
     // First find all global splits and validate them
     let mut split_indices = Vec::new();
 
@@ -85,6 +96,11 @@ pub fn replace_global_security_splits(
     // Get all affiliates we need to create splits for
     let mut non_global_affiliates: Vec<_> =
         find_all_non_global_affiliates(sorted_security_txs).into_iter().collect();
+    for af in extra_affiliates {
+        if !af.is_global() && !non_global_affiliates.contains(af) {
+            non_global_affiliates.push(af.clone());
+        }
+    }
 
     // Ensure we have at least the default affiliate. This would be a weird case
     // where the only Txs are splits, but we'll handle it anyway.
